@@ -55,7 +55,7 @@ PROP = dict(
          "checks C02.roundtrip_in's conclusion on the implementation.)",
     trusted_base=["regexp: replaced by hand-written byte matchers (Model/DecIn.lean) for the six patterns; the pattern sources are "
                   "pinned and their keyword alternations proved equal to the matchers' tables (regex_sources_tie, "
-                  "regex_keywords_tie); the rest of each pattern ('.' excludes LF, '$' end of text, classes, optional groups) is "
+                  "regex_keywords_tie, regex_gfx_optional_groups: sources, keyword and optional-group alternation lists); the matching semantics of the rest of each pattern ('.' excludes LF, '$' end of text, classes) is "
                   "compared bounded-exhaustively with the library's real regexp objects (din.match), not proved",
                   "strconv.Atoi incl. the overflow-before-syntax-error behaviour (Base/Bytes.lean scanU), encoding/base64 "
                   "DecodeString incl. partial output on corrupt input (Base/B64.lean quantum model)",
